@@ -68,6 +68,8 @@ def run(ctx: Ctx) -> None:
                       what + " - a long run and a fresh run from the same memory execute different instructions", f"{isa.EMU_PY}:{ln}")
     ctx.instance("C07.3/decode-memo", "the emulator fetch decodes from memory on every step (no instruction memo)", 1, 1)
     diagnostics_and_inputs(ctx, py)
+    data_path_memos(ctx, py)
+    process_state(ctx, py)
 
 
 # ---------------------------------------------------------------------------
@@ -548,3 +550,107 @@ def diagnostics_and_inputs(ctx: Ctx, py: PyProgram) -> None:
                         ctx.violation("C07.4/stepper-private-image", key_of(STEPPER, "_SnapshotMemory.__init__", f"self.{t.attr} aliases the caller's image"),
                                       f"`self.{t.attr} = {unparse(a.value)[:80]}` can keep the caller's mapping itself: stores made by one CPUStepper.step() are then seen by the next call given the same image, so identical inputs give different results", f"{STEPPER}:{a.lineno}")
     ctx.instance("C07.3/diagnostics-and-inputs", "device listener not gated by diagnostic logs; the pure stepper copies its memory image", n, 2)
+
+
+# storage: the attribute that *is* the memory being read; a load from it is the architectural read, not a memo
+DATA_PATH = (
+    ("pce500/memory.py", "PCE500Memory", ("read_byte", "write_byte"), ("self.external_memory",)),
+    ("pce500/memory_bus.py", "MemoryBus", ("read", "write"), ()),
+)
+
+# process-wide containers that exist today, each read: why its content cannot depend on what ran before
+PROCESS_STATE_OK = {
+    ("sc62015/pysc62015/sc_asm.py", "REVERSE_OPCODES_CACHE"): "filled once from the constant OPCODES table; C10.5 checks the single guarded writer and that templates are never written through",
+    (isa.EMU_PY, "_LCD_LOOP_RANGE"): "lazily initialised to a module constant (debug address window for logging), never changes afterwards",
+}
+PROCESS_MODULES = (isa.EMU_PY, "sc62015/pysc62015/stepper.py", "sc62015/pysc62015/cached_decoder.py", "sc62015/pysc62015/sc_asm.py", "sc62015/pysc62015/asm.py",
+                   isa.OPCODES_PY, isa.INSTR_PY, "sc62015/pysc62015/intrinsics.py", "pce500/memory.py", "pce500/memory_bus.py", "pce500/emulator.py")
+_IMMUTABLE_CALLS = {"int", "str", "bytes", "bool", "float", "tuple", "frozenset", "len"}
+_COPY_CALLS = {"copy.deepcopy", "deepcopy"}
+
+
+def data_path_memos(ctx: Ctx, py: PyProgram) -> None:
+    """What a bus access returns (and which device it reaches) is a function of the address and the machine state, not of which
+    addresses were touched before: on the access path (the entry points and every same-class helper they call) nothing that an
+    earlier access stored in the object may reach a return / yield - a 'last hit', a write-through copy of a register."""
+    from ..memo import memo_findings, method_closure
+    n = 0
+    for rel, cls, entries, storage in DATA_PATH:
+        ctx.file_used(REPO / rel)
+        mod = py.module(rel)
+        path = method_closure(mod, cls, entries)
+        ctx.need(set(entries) <= path, f"{rel}: {cls} access entry points {entries} not found")
+        for e in entries:
+            fn = py.func(rel, f"{cls}.{e}")
+            n += 1
+            inputs = tuple(a.arg for a in fn.args.args if a.arg not in ("self", "cpu_pc"))
+            seen = set()
+            for ln, what in memo_findings(mod, fn, inputs, True, storage=storage, persist_in=path):
+                if what in seen:
+                    continue
+                seen.add(what)
+                attr = what.split("`")[1] if "`" in what else "?"
+                ctx.violation("C07.4/data-path-memo", key_of(rel, f"{cls}.{e}", f"answer taken from {attr}"),
+                              what + " - the same access gives a different result depending on what was accessed before", f"{rel}:{ln}")
+    ctx.instance("C07.4/data-path-memo", "bus access entry points (memory and overlay bus, reads and writes) followed through their helpers: nothing stored by an earlier access reaches a return/yield", n, 4)
+
+
+def process_state(ctx: Ctx, py: PyProgram) -> None:
+    """Process-wide state (module-level containers written from function bodies, names rebound through `global`) in the decode /
+    execute / assemble modules: each one is either in the reviewed table or must be a complete-key memo of immutable values -
+    an object remembered there and handed out again without a copy is shared by every later call in the process."""
+    from ..memo import written_containers
+    n = 0
+    for rel in PROCESS_MODULES:
+        mod = py.module(rel)
+        ctx.file_used(REPO / rel)
+        names = {k: v for k, v in written_containers(mod).items() if not k.startswith("self.")}
+        for f in ast.walk(mod.tree):
+            if isinstance(f, ast.Global):
+                for g in f.names:
+                    names.setdefault(g, f.lineno)
+        for g, ln in sorted(names.items()):
+            n += 1
+            if (rel, g) in PROCESS_STATE_OK:
+                continue
+            fns = [f for f in ast.walk(mod.tree) if isinstance(f, (ast.FunctionDef, ast.AsyncFunctionDef))]
+            problems = []
+            for f in fns:
+                defs: dict[str, list] = {}
+                for a in ast.walk(f):
+                    if isinstance(a, ast.Assign) and len(a.targets) == 1 and isinstance(a.targets[0], ast.Name):
+                        defs.setdefault(a.targets[0].id, []).append(a.value)
+                parent = {id(c): p for p in ast.walk(f) for c in ast.iter_child_nodes(p)}
+                for x in ast.walk(f):
+                    load = None
+                    if isinstance(x, ast.Subscript) and isinstance(x.ctx, ast.Load) and isinstance(x.value, ast.Name) and x.value.id == g:
+                        load = x
+                    if isinstance(x, ast.Call) and isinstance(x.func, ast.Attribute) and isinstance(x.func.value, ast.Name) and x.func.value.id == g and x.func.attr in ("get", "setdefault", "pop"):
+                        load = x
+                    if isinstance(x, ast.Name) and x.id == g and isinstance(x.ctx, ast.Load) and not isinstance(parent.get(id(x)), (ast.Subscript, ast.Attribute)):
+                        load = x
+                    if load is None:
+                        continue
+                    par = parent.get(id(load))
+                    copied = isinstance(par, ast.Call) and unparse(par.func) in _COPY_CALLS
+                    if not copied:
+                        problems.append((load.lineno, f.name))
+                # stores of provably immutable values make the sharing harmless
+                stores_mutable = False
+                for a in ast.walk(f):
+                    if isinstance(a, ast.Assign) and any(isinstance(t, ast.Subscript) and isinstance(t.value, ast.Name) and t.value.id == g for t in a.targets):
+                        v = a.value
+                        hops = 0
+                        while isinstance(v, ast.Name) and v.id in defs and len(defs[v.id]) == 1 and hops < 4:
+                            v = defs[v.id][0]
+                            hops += 1
+                        immutable = isinstance(v, ast.Constant) or (isinstance(v, ast.Call) and unparse(v.func) in _IMMUTABLE_CALLS)
+                        if not immutable:
+                            stores_mutable = True
+                if stores_mutable:
+                    problems.append((f.lineno, f.name + " (stores a mutable object)"))
+            if any("stores a mutable" in w for _l, w in problems) or (problems and g not in written_containers(mod)):
+                ctx.violation("C07.4/process-state", key_of(rel, "module state", g),
+                              f"`{g}` is process-wide mutable state written from function bodies and not in the reviewed table: {sorted(set(w for _l, w in problems))} "
+                              "read or store it without a copy, so what one call leaves there is seen by every later call (also of other objects) in the process", f"{rel}:{ln}")
+    ctx.instance("C07.4/process-state", "module-level containers / global rebinding in the decode, execute, assemble and bus modules: reviewed table or copy-in/copy-out of immutable values", n, 2)
